@@ -57,6 +57,7 @@ static void run(int tier, int prog) {
   h_maybe_custom_steal(prog, cur->W);
   h_felock_init(&fe, prog & 1);
   static h_sentinel_t sent; h_sentinel_start(&sent, 9, prog);
+  static h_bystander_t byst; h_bystander_start(&byst, prog, cur->W);
   myth_thread_t th[8]; int nt = 0;
   if (cur->readff) {
     for (int i = 0; i < cur->nc; i++) th[nt++] = myth_create(ff_reader, 0);
@@ -73,6 +74,7 @@ static void run(int tier, int prog) {
   MV_CHECK(got_n == n && got_sum == n * (n + 1) / 2, "items lost or duplicated: got %d items summing to %d of %d", got_n, got_sum, n);
   MV_CHECK(myth_felock_status(&fe) == 0, "status %d at the end", myth_felock_status(&fe));
   mv_obs("got=%d", got_n);
+  h_bystander_finish(&byst);
   h_sentinel_finish(&sent);
   h_felock_epilogue(&fe, prog & 1);
   mv_finish();
